@@ -144,6 +144,16 @@ def r1_positivity(ctx):
                   "no `raise ValueError` guarded by a sign test of the solution vector lies between its last definition and the final return when underdetermined=%s: "
                   "a null-space vector with mixed signs (e.g. C + CO -> CO2 gives C: -1) is returned as an answer" % mode, node=final,
                   guard=hit.text() if hit else None)
+        if hit is not None:
+            its = [i for i in hit.iters() if _mentions(i.iter, "sol")]
+            for t_, _pol in hit.tests():
+                for n_ in ast.walk(t_):
+                    if isinstance(n_, ast.comprehension) and _mentions(n_.iter, "sol"):
+                        its.append(n_)
+            partial = [U(i.iter) for i in its if U(i.iter) not in ("sol", "list(sol)", "tuple(sol)", "iter(sol)")]
+            ctx.check(not partial, a, "positivity-guard-covers-all:mode=" + mode,
+                      "the sign test must range over every coefficient of the solution vector; it iterates %s (a zip with the reactants, say, stops after the reactants and never "
+                      "looks at the product coefficients)" % partial, node=hit.stmt)
 
 
 def r2_zero(ctx):
@@ -459,7 +469,7 @@ def r10_nullspace_preserved(ctx):
 
 
 RULES = [
-    Rule("C02-R1", r1_positivity, 3, "positivity guard dominates the return in all three modes"),
+    Rule("C02-R1", r1_positivity, 6, "positivity guard dominates the return in all three modes"),
     Rule("C02-R2", r2_zero, 3, "zero-coefficient guard in all three modes"),
     Rule("C02-R3", r3_residual, 4, "residual guard in ILP mode; ILP confined to mode None"),
     Rule("C02-R4", r4_determinacy, 2, "free-symbol guard in mode False"),
@@ -503,3 +513,5 @@ MUTANTS.append(Mutant("switch-rebound-for-every-mode", [(CHEM, "if underdetermin
 MUTANTS.append(Mutant("recursion-swaps-sides", [(CHEM, "                        [sp for sp in reactants if sp != dupl],\n                        [sp for sp in products if sp != dupl],", "                        [sp for sp in products if sp != dupl],\n                        [sp for sp in reactants if sp != dupl],")], "C02-R10", "recursion-keeps-sides"))
 MUTANTS.append(Mutant("given-substances-ignored", [(CHEM, "    if substances is None:\n        substances = OrderedDict(\n            [(k, substance_factory(k)) for k in chain(reactants, products)]", "    if substances is not None:\n        substances = OrderedDict(\n            [(k, substance_factory(k)) for k in chain(reactants, products)]")], "C02-R10", "default-substances"))
 TWINS.append(Twin("sol-matrix-division", [(CHEM, "sol = sol.func(*[arg / cd for arg in sol.args])", "sol = sol.func(*[arg * (1 / cd) for arg in sol.args])")]))
+MUTANTS.append(Mutant("positivity-guard-reactants-only", [(CHEM, _POS, "    for sk_, coeff_ in zip(reactants, sol):\n        if coeff_.is_negative:\n            raise ValueError(\"wrong side\")\n")], "C02-R1", "covers-all"))
+
